@@ -44,3 +44,16 @@ Theorem C12_is_finite : forall (Vr : Type) (E : EqDec Vr) (fuel : nat) (G : cfg 
   to_normal_form fuel G = Some C -> nf_vars_useful C = true -> is_finite fuel G = Some b -> (b = true <-> lang_finite G).
 Proof. exact (@is_finite_spec). Qed.
 Print Assumptions C12_is_finite.
+
+(* ... and that hypothesis always holds: the normal form computed by to_normal_form has no useless variable, so is_finite decides
+   finiteness for every registered grammar (cfg_wf: what CFG.__init__ establishes) that has a start symbol *)
+From PFL Require Import Proofs.CfgNfUseful.
+Theorem C12_normal_form_useful : forall (Vr : Type) (E : EqDec Vr) (fuel : nat) (G : cfg Vr) (C : cfg (cvar Vr)),
+  cfg_wf G -> g_start G <> None -> to_normal_form fuel G = Some C -> nf_vars_useful C = true.
+Proof. exact (@to_normal_form_useful). Qed.
+Print Assumptions C12_normal_form_useful.
+
+Theorem C12_is_finite_correct : forall (Vr : Type) (E : EqDec Vr) (fuel : nat) (G : cfg Vr) (b : bool),
+  cfg_wf G -> g_start G <> None -> is_finite fuel G = Some b -> (b = true <-> lang_finite G).
+Proof. exact (@is_finite_correct). Qed.
+Print Assumptions C12_is_finite_correct.
